@@ -75,6 +75,12 @@ A1(t) == \A i \in Idx(t.ev, "Sample") : LET c == LastChange(t, i) IN
             (c # 0 /\ t.ev[i].t - t.ev[c].t >= t.bound) =>
                (t.ev[i].unhealthy <=> IsE(t.ev[c], "Down"))
 
+\* ---- fresh ----
+\* the first handler's checker did mark the refusing peer down (else the run shows nothing), and the handler loaded after
+\* every user of the peer was unloaded starts with a peer in rotation: healthy, no failures, no connections - and serves
+F0(t) == \A i \in Idx(t.ev, "Marked") : t.ev[i].unhealthy
+F1(t) == \A i \in Idx(t.ev, "Fresh") : ~t.ev[i].unhealthy /\ t.ev[i].fails = 0 /\ t.ev[i].conns = 0 /\ t.ev[i].served
+
 HealthViolations(t) ==
   CASE t.kind = "window" ->
          (IF W1(t) THEN {} ELSE {"W1 failure counter is not the number of dial failures of the last fail_duration (or negative)"})
@@ -88,6 +94,9 @@ HealthViolations(t) ==
          (IF L1(t) THEN {} ELSE {"L1 an upstream at max_connections was given another connection"})
          \cup (IF L2(t) THEN {} ELSE {"L2 a connection was refused although an upstream was below its limit"})
          \cup (IF L3(t) THEN {} ELSE {"L3 connection counters differ from the proxied connections that are open (leaked or negative count)"})
+    [] t.kind = "fresh" ->
+         (IF F0(t) THEN {} ELSE {"A1 active health check did not mark the peer down while refusing / up again once accepting"})
+         \cup (IF F1(t) THEN {} ELSE {"F1 a handler loaded after every user of a peer was unloaded did not start with that peer in rotation (state of an earlier configuration survived)"})
     [] t.kind = "active" ->
          (IF A1(t) THEN {} ELSE {"A1 active health check did not mark the peer down while refusing / up again once accepting"})
     [] OTHER -> {"unknown trace kind"}
